@@ -211,6 +211,7 @@ TAG_RE = re.compile(r'//\s*\[([A-Z0-9, ]+)\]\s*$')
 class Unit:
     def __init__(self, name, template_path, repo, cfgs):
         self.name = name
+        self.cfgs = cfgs
         self.tpl = self.load(template_path)
         self.repo = repo
         self.cfgs = cfgs
@@ -263,7 +264,23 @@ class Unit:
         out = []
         if not hasattr(self, 'defs'):
             self.defs = {}
+        skipping = []   # stack of booleans: True while inside a disabled //@if branch
         for l in open(path).read().split('\n'):
+            st = l.strip()
+            # conditional template text:  //@if <cfg> | //@if !<cfg>  ...  //@else  ...  //@endif
+            if st.startswith('//@if '):
+                c = st[len('//@if '):].strip()
+                on = (not self.cfgs.get(c[1:], False)) if c.startswith('!') else bool(self.cfgs.get(c, False))
+                skipping.append(not on)
+                continue
+            if st == '//@else':
+                skipping[-1] = not skipping[-1]
+                continue
+            if st == '//@endif':
+                skipping.pop()
+                continue
+            if any(skipping):
+                continue
             if l.strip().startswith('//@def '):
                 mm = re.match(r'//@def\s+(\w+)\(([^)]*)\)\s*:=\s*(.*)$', l.strip())
                 self.defs[mm.group(1)] = ([x.strip() for x in mm.group(2).split(',') if x.strip()], mm.group(3))
